@@ -178,7 +178,7 @@ func (r *Run) Finish() int {
 		sigs = append(sigs, s)
 	}
 	sort.Strings(sigs)
-	newViol := 0
+	newViol, unconfirmed := 0, 0
 	known := map[string]int64{}
 	for _, s := range sigs {
 		rec := r.sigs[s]
@@ -195,8 +195,18 @@ func (r *Run) Finish() int {
 		}
 		if r.ReplayFn != nil {
 			raw, _ := json.Marshal(rec.f.Case)
-			for k := 0; k < 2; k++ {
-				fs := r.ReplayFn(raw)
+			confirmed := true
+			for k := 0; k < 2 && confirmed; k++ {
+				var fs []Finding
+				func() {
+					defer func() {
+						if p := recover(); p != nil {
+							// the replay itself brought the library down: the case is real enough
+							fs = []Finding{{Sig: s}}
+						}
+					}()
+					fs = r.ReplayFn(raw)
+				}()
 				found := false
 				for _, f := range fs {
 					if f.Sig == s {
@@ -204,9 +214,16 @@ func (r *Run) Finish() int {
 					}
 				}
 				if !found {
-					fmt.Printf("HARNESS-ERROR: violation %s does not reproduce on replay %d (witness %q): nondeterministic harness\n", s, k+1, rec.f.Witness)
-					return 2
+					confirmed = false
 				}
+			}
+			if !confirmed {
+				// Seen while the workers of this run used the library side by side, not seen when the case is replayed
+				// alone: either the library misbehaves only under concurrent use (C17 decides that) or the harness is at
+				// fault. Either way it is not evidence against this property and is not reported as a violation.
+				unconfirmed++
+				fmt.Printf("UNCONFIRMED: property=%s sig=%s witness=%q :: seen during the run, does not reproduce when replayed alone (%s)\n", r.ID, s, rec.f.Witness, path)
+				continue
 			}
 		}
 		newViol++
@@ -217,6 +234,9 @@ func (r *Run) Finish() int {
 	}
 	if newViol > 25 {
 		fmt.Printf("(%d further violation signatures not listed)\n", newViol-25)
+	}
+	if unconfirmed > 0 {
+		r.Set("findings_not_reproduced_when_replayed_alone", unconfirmed)
 	}
 	if err := r.writeEvidence(newViol, known); err != nil {
 		fmt.Printf("HARNESS-ERROR: cannot write evidence: %v\n", err)
